@@ -21,7 +21,9 @@ CONSTANTS MaxN,      \* mailbox sizes 0..MaxN
                      \*   (sequence numbers and the dense UID table), <= 2 otherwise
           Bnd3N,     \* lists of <= 3 elements over the boundary alphabet for
                      \*   N <= Bnd3N (sequence numbers, dense UID table) ...
-          Bnd3SparseN \*  ... and for N <= Bnd3SparseN on the sparse UID tables
+          Bnd3SparseN, \* ... and for N <= Bnd3SparseN on the sparse UID tables
+          Cover2N    \* the sizes N for which pairs of boundary elements (and not
+                     \*   only single elements) go through complete commands
 
 VARIABLES g, set, ph
 
@@ -40,7 +42,7 @@ Kb(gr) == IF Len(gr[2]) <= (IF Plain(gr) THEN Bnd3N ELSE Bnd3SparseN) THEN 3 ELS
 SpaceOf(gr) == Space(gr[1], gr[2], Kf(gr), Kb(gr))
 (* covering subset for complete commands: every single element, every pair *)
 (* of boundary elements                                                    *)
-CoverOf(gr) == Space(gr[1], gr[2], 1, 2)
+CoverOf(gr) == Space(gr[1], gr[2], 1, IF Len(gr[2]) \in Cover2N THEN 2 ELSE 1)
 
 Emit ==
     JsonSerialize(IOEnv.C15_CASES_OUT,
